@@ -47,7 +47,12 @@ impl PrefixFileSet {
         {
             let dir_entry = dir_entry.map_err(|e| format!("error reading dir {dir:?}: {e:?}"))?;
             let path = dir_entry.path();
-            if path.starts_with(path_prefix) {
+            // `Path::starts_with` compares whole path components, so it never matches
+            // "server.log.20240101T000000Z-0" against the prefix "server.log".  Compare strings.
+            if path
+                .to_string_lossy()
+                .starts_with(path_prefix.to_string_lossy().as_ref())
+            {
                 let metadata = dir_entry.metadata().map_err(|e| {
                     format!("error reading metadata of {:?}: {e:?}", dir_entry.path())
                 })?;
